@@ -162,12 +162,14 @@ structure SCreated (o : Order) (e : Exch) : Prop where
   known : e.known = false
   pend : e.pending = none
   status : o.status = "Z"
+  orig : o.origClordId = none
 
 /-- NewOrderSingle `m` in flight -/
 structure SNew (o : Order) (e : Exch) (m : Msg) (oo : Option Str) : Prop where
   known : e.known = false
   pend : e.pending = none
   status : o.status = "A"
+  orig : o.origClordId = none
   clne : o.clordId ≠ []
   req : Req.ofMsg m = ⟨"D", some o.clordId, oo, some o.price, some o.qty⟩
 
